@@ -99,8 +99,11 @@ fn structure(got: &[Ev], p: &Params) -> Result<(), String> {
         }
         // never within 10 ms of travel of the span end
         for e in &ticks {
+            // the distance is reconstructed from the progress value (d / len * len), which may come out a
+            // unit in the last place above the distance the decision was made on; the exact boundary is
+            // decided by the comparison with the reference stream, this check is the coarse independent one
             let d = e.p * len;
-            if d >= len - p.vel * 10.0 {
+            if d - (len - p.vel * 10.0) > 4.0 * f64::EPSILON * len {
                 return Err(format!("tick at distance {d} is within 10 ms of travel of the span end ({len})"));
             }
         }
@@ -333,7 +336,35 @@ fn encoder_caller_case(ctx: &mut Ctx, index: u64, r: &mut Rng) {
     });
 }
 
+/// Parameters for which a multiple of the tick distance lies exactly on (or one unit in the last place
+/// next to) the cut-off `length - 10 ms of travel`: decimal tick distances and velocities, the length
+/// built from them. Whether the tick exists is decided by the legacy comparison `d >= length - 10 * v`
+/// on the accumulated distance; any algebraically equivalent rearrangement rounds differently here.
+fn cutoff_params(r: &mut Rng) -> Params {
+    let dec = |r: &mut Rng, lo: u64, hi: u64| (lo + r.below((hi - lo) as usize) as u64) as f64 / 10.0;
+    let vel = if r.chance(1, 3) { (1 + r.below(5)) as f64 } else { dec(r, 1, 60) };
+    let td = if r.chance(1, 3) { (5 + r.below(120)) as f64 } else { dec(r, 30, 1300) };
+    let k = 1 + r.below(8);
+    let mut d = 0.0;
+    for _ in 0..k {
+        d += td;
+    }
+    let mut total = d + vel * 10.0;
+    match r.below(6) {
+        0 => total = f64::from_bits(total.to_bits() + 1),
+        1 => total = f64::from_bits(total.to_bits() - 1),
+        2 => total = k as f64 * td + 10.0 * vel,
+        _ => {}
+    }
+    let spans = 1 + r.below(4) as i32;
+    let sd = if r.chance(3, 4) { total / vel } else { [72.0, 500.0, 1000.0][r.below(3)] };
+    Params { start: (r.below(200_000) as f64) - 1000.0, sd, vel, td, total, spans }
+}
+
 fn random_params(r: &mut Rng) -> Params {
+    if r.chance(1, 8) {
+        return cutoff_params(r);
+    }
     let total = match r.below(6) {
         0 => r.f() * 10.0,
         1 => 100_000.0 + r.f() * 1000.0,
